@@ -842,7 +842,7 @@ class UncertainArray(np.ndarray):
         out, iterator, shape = self._create_empty()
         for i, item in enumerate(iterator):
             out[i] = +item
-        return UncertainArray(out.reshape(shape, order=order), label=self.label)
+        return UncertainArray(np.asarray(out.reshape(shape), order=order), label=self.label)
 
     def round(self, *args, **kwargs):
         raise TypeError(
